@@ -390,6 +390,39 @@ def units_of(cl, co):
     return out
 
 
+def nvl_stats(cl, co):
+    """(new_var(lin) requested on an expression with a basic variable?, with a known term?, set_* applied to a variable
+    returned by such a request?) for one case, from the implementation's output"""
+    nb = nk = st = False
+    special = set()
+    prev_b, prev_n = frozenset(), 0
+    for ln, o in zip(cl, co):
+        if o is None or ln.startswith("case "):
+            continue
+        t = ln.split()
+        head = o.split(" | ")[0].split()
+
+        def var(tok):
+            return prev_n - 1 - int(tok[1:]) if tok.startswith("^") else int(tok)
+        try:
+            if t[0] in ("lra.nvl", "lra.nvlraw") and head and head[0].isdigit():
+                n = int(t[1][1:])
+                vs = [var(t[2 + 2 * i]) for i in range(n)]
+                b = any(v in prev_b for v in vs)
+                k = t[2 + 2 * n] != "0/1"
+                nb, nk = nb or b, nk or k
+                if b or k:
+                    special.add(int(head[0]))
+            if t[0] in ("lra.setlb", "lra.setub", "lra.set") and head and head[0] in ("T", "F") and var(t[1]) in special:
+                st = True
+        except (ValueError, IndexError):
+            pass
+        b = basics(o)
+        if b is not None:
+            prev_b, prev_n = b, nvars(o)
+    return nb, nk, st
+
+
 def first_diff(cl, ci, cm):
     for k, (i, m) in enumerate(zip(ci, cm)):
         if i != m:
@@ -453,6 +486,7 @@ def probe(exe, seed, ncases, keep=None, quiet=False, oracle=False, deep=0, setop
     cases = split_cases(L, I, M)
     ops, answers = {}, {}
     n_conf = n_lem = n_piv = n_both = 0
+    n_nb = n_nk = n_st = 0
     lem_total = 0
     diffs = []
     for ci, (cl, co, cm) in enumerate(cases):
@@ -466,9 +500,13 @@ def probe(exe, seed, ncases, keep=None, quiet=False, oracle=False, deep=0, setop
                 a = "lit"
             elif op in ("lra.val", "lra.bounds") and "/" in a:
                 a = "value"
-            elif op in ("lra.nv", "lra.nvl") and a.isdigit():
+            elif op in ("lra.nv", "lra.nvl", "lra.nvlraw") and a.isdigit():
                 a = "var"
             answers[(op, a)] = answers.get((op, a), 0) + 1
+        nb, nk, st = nvl_stats(cl, co)
+        n_nb += nb
+        n_nk += nk
+        n_st += st
         conflict, lemmas, pivot = case_stats(cl, co)
         n_conf += conflict
         n_lem += lemmas > 0
@@ -499,7 +537,8 @@ def probe(exe, seed, ncases, keep=None, quiet=False, oracle=False, deep=0, setop
                     obad.append((ci, j, w))
                     break
     stats = {"seed": seed, "cases": len(cases), "lines": len(L), "diff_cases": len(diffs), "impl_aborts": len(A), "model_aborts": len(MA),
-             "conflict_cases": n_conf, "lemma_cases": n_lem, "recorded_clauses": lem_total, "pivot_cases": n_piv, "conflict_and_pivot_cases": n_both}
+             "conflict_cases": n_conf, "lemma_cases": n_lem, "recorded_clauses": lem_total, "pivot_cases": n_piv, "conflict_and_pivot_cases": n_both,
+             "nvl_basic_cases": n_nb, "nvl_known_cases": n_nk, "set_on_nvl_cases": n_st}
     if not quiet:
         print(f"seed {seed}: {len(cases)} cases, {len(L)} lines compared, {len(diffs)} differing cases, impl aborts {len(A)}, model aborts {len(MA)}")
         print("  operations:", " ".join(f"{k}={v}" for k, v in sorted(ops.items())))
@@ -510,6 +549,8 @@ def probe(exe, seed, ncases, keep=None, quiet=False, oracle=False, deep=0, setop
         n = max(1, len(cases))
         print(f"  histories with a conflict: {n_conf} ({100*n_conf/n:.1f}%), with recorded clauses (lemmas / learnt): {n_lem} ({100*n_lem/n:.1f}%, {lem_total} clauses), "
               f"with pivots: {n_piv} ({100*n_piv/n:.1f}%), with both: {n_both} ({100*n_both/n:.1f}%)")
+        print(f"  histories with new_var(lin) on a basic variable: {n_nb} ({100*n_nb/n:.1f}%), with a known term: {n_nk} ({100*n_nk/n:.1f}%), "
+              f"with set_lb/set_ub/set on a variable returned by such a request: {n_st} ({100*n_st/n:.1f}%)")
     if oracle or deep:
         if deep:
             print(f"  deep oracle (recorded clauses are consequences modulo LRA; root-level false only on unsatisfiable problems): {n_deep[0]} cases checked")
@@ -518,16 +559,28 @@ def probe(exe, seed, ncases, keep=None, quiet=False, oracle=False, deep=0, setop
         if obad:
             ci, j, w = min(obad, key=lambda d: len(cases[d[0]][0]))
             cl, co, cm = cases[ci]
-            print(f"  ORACLE VIOLATION in `{cl[0]}` at line {j} `{cl[j]}`: {w}")
-            for ln in cl[:j + 1]:
-                print("      " + ln)
+            stats["oracle_example"] = (cl, j, w)
+            if not quiet:
+                print(f"  ORACLE VIOLATION in `{cl[0]}` at line {j} `{cl[j]}`: {w}")
+                for ln in cl[:j + 1]:
+                    print("      " + ln)
             if keep:
                 os.makedirs(keep, exist_ok=True)
                 with open(os.path.join(keep, f"oracle-seed{seed}.txt"), "w") as f:
                     f.write("# " + w + "\n" + "\n".join(cl[:j + 1]) + "\n")
+    if A:
+        i, why, err = A[0]
+        start = max(j for j in range(i + 1) if L[j].startswith("case "))
+        stats["abort_example"] = (L[start:i + 1], i - start, f"{why}: {err[-300:]}")
+    if diffs and quiet:
+        ci, k = min(diffs, key=lambda d: len(cases[d[0]][0]))
+        cl, co, cm = cases[ci]
+        stats["diff_example"] = (cl, k, co[k], cm[k])
+        return stats
     if diffs:
         ci, k = min(diffs, key=lambda d: len(cases[d[0]][0]))
         cl, co, cm = cases[ci]
+        stats["diff_example"] = (cl, k, co[k], cm[k])
         print(f"  FIRST/SHORTEST DIFFERENCE: case `{cl[0]}` line {k}: {cl[k]}")
         print("    impl :", co[k])
         print("    model:", cm[k])
@@ -572,7 +625,9 @@ def main(argv):
         n = max(1, tot["cases"])
         print(f"TOTAL over seeds {seed}..{seed+nseeds-1}: {tot['cases']} cases, {tot['lines']} lines, {tot['diff_cases']} differing cases, "
               f"{tot['impl_aborts']} impl aborts, {tot['model_aborts']} model aborts; conflicts {100*tot['conflict_cases']/n:.1f}%, "
-              f"recorded clauses {100*tot['lemma_cases']/n:.1f}% ({tot['recorded_clauses']}), pivots {100*tot['pivot_cases']/n:.1f}%, both {100*tot['conflict_and_pivot_cases']/n:.1f}%")
+              f"recorded clauses {100*tot['lemma_cases']/n:.1f}% ({tot['recorded_clauses']}), pivots {100*tot['pivot_cases']/n:.1f}%, both {100*tot['conflict_and_pivot_cases']/n:.1f}%; "
+              f"new_var(lin) with a basic variable {100*tot['nvl_basic_cases']/n:.1f}%, with a known term {100*tot['nvl_known_cases']/n:.1f}%, set_* on such a variable {100*tot['set_on_nvl_cases']/n:.1f}%"
+              + (f"; oracle violations {tot.get('oracle_violations', 0)}" if 'oracle_violations' in tot else ""))
     return 1 if tot.get("diff_cases") or tot.get("model_aborts") or tot.get("oracle_violations") else 0
 
 
